@@ -48,6 +48,7 @@ type ctok struct {
 }
 
 func contentTokensRaw(text string) []ctok {
+	_, exactHops := rangeLiteralsAt(text)
 	lexer := parser.NewCypherLexer(antlr.NewInputStream(text))
 	lexer.RemoveErrorListeners()
 	var out []ctok
@@ -196,6 +197,10 @@ func contentTokensRaw(text string) []ctok {
 			}
 		}
 		out = append(out, ctok{txt, false, t.GetText()})
+		if exactHops[t.GetStart()] {
+			// `*n` is the exact length n..n
+			out = append(out, ctok{"..", false, ".."}, ctok{txt, false, t.GetText()})
+		}
 	}
 	return out
 }
@@ -338,7 +343,15 @@ func multisetDiff(a, b []string) (lost, gained []string) {
 // rangeLiterals: the (start, dots, end) of every `*a..b` directly inside a relationship detail `-[ … ]-` (not inside its
 // property map or any nested bracket), in order.
 func rangeLiterals(text string) []string {
+	out, _ := rangeLiteralsAt(text)
+	return out
+}
+
+// rangeLiteralsAt also returns the token start offsets of the integer of every exact-length literal `*n` (no range operator).
+// `*n` MEANS n..n: it is reported as n/true/n, so that `*2` read as `*2..` differs and `*2` written back as `*2..2` does not.
+func rangeLiteralsAt(text string) ([]string, map[int]bool) {
 	var out []string
+	exact := map[int]bool{}
 	toks := []antlr.Token{}
 	lexer := parser.NewCypherLexer(antlr.NewInputStream(text))
 	lexer.RemoveErrorListeners()
@@ -393,12 +406,16 @@ func rangeLiterals(text string) []string {
 				if a == "" && b == "" {
 					dots = false
 				}
+				if a != "" && !dots {
+					exact[toks[j+1].GetStart()] = true
+					b, dots = a, true
+				}
 				out = append(out, fmt.Sprintf("%s/%v/%s", a, dots, b))
 			}
 		}
 		i = j
 	}
-	return out
+	return out, exact
 }
 
 // ---------------------------------------------------------------------------------- runner
